@@ -16,6 +16,15 @@ use tensor_compress::{
 };
 use tensor_store::SparseVector;
 
+/// field-for-field mirror of SparseVector (derived Serialize/Deserialize): lets the harness produce the bytes
+/// of vectors no constructor would build
+#[derive(serde::Serialize)]
+struct ForgedSparse {
+    dimension: usize,
+    positions: Vec<u32>,
+    values: Vec<f32>,
+}
+
 fn nl(xs: &[u64]) -> String {
     list(xs.iter().map(|x| n(*x)))
 }
@@ -287,6 +296,77 @@ fn main() {
         );
     }
 
+
+    // ---------------------------------------------------------------- received (possibly forged) sparse vectors
+    let mut wv = CaseWriter::new(&args.out, "valid");
+    let nvv = args.budget(600, 20000);
+    let vcorpus: Vec<(usize, Vec<u32>, Vec<u32>)> = vec![
+        (4, vec![0, 1, 2], vec![0x3f80_0000]),                      // more positions than values (F-C20-validator)
+        (4, vec![9], vec![0x3f80_0000]),                            // single out-of-range position
+        (4, vec![0, 2], vec![0x3f80_0000, 0x4000_0000]),            // well formed
+        (4, vec![2, 0], vec![0x3f80_0000, 0x4000_0000]),            // unsorted
+        (4, vec![1, 1], vec![0x3f80_0000, 0x4000_0000]),            // duplicate position
+        (4, vec![0], vec![0x3f80_0000, 0x4000_0000]),               // more values than positions
+        (0, vec![], vec![]),                                        // zero dimension
+        (4, vec![3], vec![0x7fc0_0000]),                            // NaN
+        (4, vec![3], vec![0x7f80_0000]),                            // +inf
+        (4, vec![0, 1, 2, 4], vec![0x3f80_0000; 4]),                // last position == dimension
+    ];
+    for i in 0..nvv + vcorpus.len() {
+        let (dim, pos, vals): (usize, Vec<u32>, Vec<u32>) = if i < vcorpus.len() {
+            vcorpus[i].clone()
+        } else {
+            let dim = *rng.pick(&[0usize, 1, 2, 4, 8, 16, 70]);
+            let np = rng.below(6) as usize;
+            // mostly ascending positions inside the dimension, with the occasional outlier / disorder
+            let mut pos: Vec<u32> = (0..np).map(|_| rng.below(dim.max(1) as u64 + 2) as u32).collect();
+            if rng.chance(3, 4) { pos.sort_unstable(); }
+            if rng.chance(2, 3) { pos.dedup(); }
+            let nv = match rng.below(5) { 0 => pos.len().saturating_sub(1), 1 => pos.len() + 1, _ => pos.len() };
+            let vals: Vec<u32> = (0..nv)
+                .map(|_| match rng.below(12) {
+                    0 => 0x7fc0_0000,                   // NaN
+                    1 => 0x7f80_0000,                   // +inf
+                    2 => 0xff80_0000,                   // -inf
+                    _ => ((rng.below(200) as f32 - 100.0) / 8.0).to_bits(),
+                })
+                .collect();
+            (dim, pos, vals)
+        };
+        let max_dim = *rng.pick(&[8usize, 64, 1024]);
+        let forged = ForgedSparse { dimension: dim, positions: pos.clone(), values: vals.iter().map(|b| f32::from_bits(*b)).collect() };
+        let bytes_ = match bitcode::serialize(&forged) { Ok(b) => b, Err(_) => continue };
+        let sv: SparseVector = match bitcode::deserialize(&bytes_) { Ok(v) => v, Err(_) => { dist.hit("valid.deser_rejects"); continue } };
+        let validator = tensor_chain::EmbeddingValidator::new(max_dim, 1.0e9);
+        let accepted = validator.validate(&sv, "f").is_ok();
+        let mut panicked = false;
+        if accepted {
+            let probe = SparseVector::from_dense(&vec![1.0f32; dim]);
+            let sv2 = sv.clone();
+            panicked = guarded(move || {
+                let _ = sv2.to_dense();
+                for k in 0..sv2.dimension().min(64) { let _ = sv2.get(k); }
+                let _ = probe.dot(&sv2);
+                let _ = sv2.dot(&probe);
+                let _ = sv2.magnitude();
+                let _ = sv2.cosine_similarity(&probe);
+            }).is_err();
+        }
+        dist.hit(match (accepted, panicked, pos.len() == vals.len()) {
+            (true, true, _) => "valid.accepted_then_panics",
+            (true, false, _) => "valid.accepted",
+            (false, _, false) => "valid.rejected.len_mismatch",
+            (false, _, true) => "valid.rejected.other",
+        });
+        let pn: Vec<u64> = pos.iter().map(|p| *p as u64).collect();
+        let vn: Vec<u64> = vals.iter().map(|p| *p as u64).collect();
+        wv.push(
+            &format!("({}, {}, {}, {}, {}, {})", dim, nl(&pn), nl(&vn), max_dim, b(accepted), b(panicked)),
+            &format!("forged SparseVector dim={dim} positions={pos:?} value_bits={vals:x?} max_dim={max_dim}"),
+            !pos.is_empty() || !vals.is_empty(),
+        );
+    }
+
     // ---------------------------------------------------------------- frames
     let mut wf = CaseWriter::new(&args.out, "frame");
     let nf = args.budget(400, 10000);
@@ -314,6 +394,8 @@ fn main() {
         let l = ser.len() as u64;
         let max = if i == 0 {
             600
+        } else if i == 1 {
+            l // corpus: serialized size exactly at the limit, sent uncompressed (frame content = limit + 1)
         } else {
             match rng.below(6) {
                 0 => l.saturating_sub(1).max(1),
@@ -324,7 +406,7 @@ fn main() {
                 _ => 16 * 1024 * 1024,
             }
         };
-        let enabled = i == 0 || rng.chance(2, 3);
+        let enabled = i == 0 || (i != 1 && rng.chance(2, 3));
         let lz4 = i == 0 || rng.chance(3, 4);
         let min_size = if i == 0 { 1 } else { *rng.pick(&[0u64, 1, 64, 256, 100000]) };
         let cfg = CompressionConfig::default().with_method(if lz4 { CompressionMethod::Lz4 } else { CompressionMethod::None }).with_min_size(min_size as usize);
@@ -335,6 +417,10 @@ fn main() {
         let v2 = codec.encode_v2(&msg);
         let d1 = match &v1 { Ok(fr) => dec_code(&msg, codec.decode_payload(&fr[4..])), Err(_) => 4 };
         let d2 = match &v2 { Ok(fr) => dec_code(&msg, codec.decode_payload_v2(&fr[4..])), Err(_) => 4 };
+        // the transport path: the reader on the whole frame (length prefix checked against the limit first)
+        let r1 = match &v1 { Ok(fr) => read_code(&msg, &codec, fr.clone(), false), Err(_) => 4 };
+        let r2 = match &v2 { Ok(fr) => read_code(&msg, &codec, fr.clone(), true), Err(_) => 4 };
+        if matches!(&v2, Ok(_)) && r2 != 0 { dist.hit("frame.v2.reader_rejects_own_frame"); }
         dist.hit(match (&v2, d2) {
             (Ok(fr), 0) if fr[4] == 1 => "frame.v2.ok.compressed",
             (Ok(_), 0) => "frame.v2.ok.plain",
@@ -342,8 +428,8 @@ fn main() {
             (Err(_), _) => "frame.v2.too_large",
         });
         let term = format!(
-            "(Codec {} {} {} {}, {}, {}, {}, {}, {}, {})",
-            max, b(en), min_size, b(lz4), bytes(&ser), bytes(&z), fres(&v1), fres(&v2), d1, d2
+            "(Codec {} {} {} {}, {}, {}, {}, {}, {}, {}, {}, {})",
+            max, b(en), min_size, b(lz4), bytes(&ser), bytes(&z), fres(&v1), fres(&v2), d1, d2, r1, r2
         );
         wf.push(&term, &format!("frame max={max} comp={en} lz4={lz4} min_size={min_size} msg={}", &format!("{msg:?}").chars().take(200).collect::<String>()), true);
     }
@@ -419,12 +505,26 @@ fn main() {
         &args.out,
         json!({
             "property": "C20", "seed": args.seed, "tier": args.tier,
-            "kinds": [w.summary(), wd.summary(), wl.summary(), wr.summary(), ws.summary(), wf.summary(), wp.summary(), fz.summary()],
+            "kinds": [w.summary(), wd.summary(), wl.summary(), wr.summary(), ws.summary(), wf.summary(), wp.summary(), wv.summary(), fz.summary()],
             "distribution": dist.json(),
             "hits": hits.0,
             "nontrivial_rule": "varint/delta/rle/sparse: non-empty (delta, rle: >= 2 elements) and distinct; frame: every case (a real Message through both protocol versions under a limit chosen around its serialized/compressed size); split: at least a full length prefix; fuzz_impl_only cases are not counted as non-trivial",
         }),
     );
+}
+
+/// outcome of read_frame / read_frame_v2 on one encoded frame: 0 = the message that was sent, 1 = another
+/// message, 2 = MessageTooLarge, 3 = any other error or end of stream
+fn read_code(sent: &Message, codec: &LengthDelimitedCodec, frame: Vec<u8>, v2: bool) -> u64 {
+    let rt = tokio::runtime::Builder::new_current_thread().enable_time().build().unwrap();
+    let mut cur = Cursor::new(frame);
+    let r = if v2 { rt.block_on(codec.read_frame_v2(&mut cur)) } else { rt.block_on(codec.read_frame(&mut cur)) };
+    match r {
+        Ok(Some(m)) => if format!("{m:?}") == format!("{sent:?}") { 0 } else { 1 },
+        Ok(None) => 3,
+        Err(TcpError::MessageTooLarge { .. }) => 2,
+        Err(_) => 3,
+    }
 }
 
 /// class of read_frame's outcome on a byte string: 0 = payload extracted (decoded or not
